@@ -40,6 +40,12 @@ func TestSweep(t *testing.T) {
 			for pre := 0; pre < C; pre++ {
 				for srcN := 1; srcN <= 3*C+2; srcN++ {
 					Oracle.One(t, env, rec, "sweep", &Case{T: tn, C: C, A: pre, B: srcN, N: 4*C + 12, Fix: 3, Vals: []int64{9, 0, 127}})
+					// windows of the grown buffer (Check skips frames beyond its storage)
+					for ws := 0; ws <= (pre+srcN)/C+1; ws++ {
+						for we := ws; we <= ws+1; we++ {
+							Oracle.One(t, env, rec, "sweep", &Case{T: tn, C: C, A: pre, B: srcN, N: 4*C + 12, Fix: 3, Win: true, Ws: ws, We: we, Vals: []int64{9, 0, 127}})
+						}
+					}
 				}
 			}
 		}
